@@ -74,7 +74,7 @@ def run_caller(cg, B, types, ret='int', depth0=0):
             s.reg['rax'] = ('clobber', 'rax', name); s.xmm[0] = term
         else:
             s.reg['rax'] = ('clobber', 'rax', name); s.st.append(term)
-    finals = Machine().run(nodes, lambda s: None, pseudo)
+    finals = Machine(ret_x87=(ret == 'ldouble' or ret_locs(ret) == 'X87')).run(nodes, lambda s: None, pseudo)
     if len(finals) != 1:
         raise Unknown('%d paths through the emitted call sequence' % len(finals))
     return ctx, tr, finals[0]
@@ -96,21 +96,8 @@ def check_call(rep, types, ret, depth0, ctx, tr, s, key, where):
         rep.ob('R06.2', key + ':one-call', False, '%d call instructions emitted for one call expression' % len(cs), where=where, facts=facts)
         return
     _, target, reg, xmm, stack, st = cs[0]
-    hidden = ret in STRUCTS and classify(ret) == ['MEMORY']
+    hidden = ret in STRUCTS and ret_locs(ret) == 'MEMORY'
     locs, ngp, nsse, membytes = assign_args(types, hidden_ret=hidden)
-    lax = assign_args(types, hidden_ret=hidden, ld_align=8)
-    if lax[0] != locs:
-        # judge the 16-byte alignment of long double memory arguments once, and everything else against the unaligned layout
-        got_lax = True
-        for i, t in enumerate(types):
-            if t == 'ldouble' and lax[0][i][0] == 'mem':
-                pos = len(stack) - 1 - lax[0][i][1] // 8
-                got_lax = got_lax and 0 <= pos < len(stack) and stack[pos][0] == 'f80lo'
-        rep.ob('R06.2', '%s:ND_FUNCALL:long-double-memory-argument-16-byte-aligned' % U, not got_lax,
-               'a long double passed in memory after an odd number of 8-byte memory arguments is placed at %d(%%rsp); psABI 3.2.3 requires 16-byte alignment (%d(%%rsp)): a callee compiled by another compiler reads it from the wrong place' % (
-                   [l[1] for l, t in zip(lax[0], types) if t == 'ldouble'][0], [l[1] for l, t in zip(locs, types) if t == 'ldouble'][0]), where=where, facts=facts)
-        if got_lax:
-            locs, ngp, nsse, membytes = lax
     # callee address
     rep.ob('R06.2', key + ':calls-the-callee', target == ('ind', ('reg', 'r10')) and reg['r10'] == ('r', 'fn', 64), 'the call does not go to the value of the function designator (%r via %r)' % (target, reg.get('r10')), where=where, facts=facts)
     # %al = number of vector registers
@@ -275,13 +262,6 @@ def run_callee(cg, B, types, variadic=False, ret='int', extra_locals=()):
 def check_callee(rep, types, box, offsets, stack_size, tr, s, key, where, variadic=False):
     facts = {'trace': tr.text()[:60], 'offsets': offsets, 'stack_size': stack_size}
     locs, ngp, nsse, membytes = assign_args(types)
-    lax = assign_args(types, ld_align=8)
-    if lax[0] != locs:
-        is_lax = all(offsets[i] == 16 + lax[0][i][1] for i, t in enumerate(types) if t == 'ldouble' and lax[0][i][0] == 'mem')
-        rep.ob('R06.7', '%s:emit_text:long-double-memory-parameter-16-byte-aligned' % U, not is_lax,
-               'a long double parameter passed in memory after an odd number of 8-byte memory parameters is read at an address that is not 16-byte aligned; a psABI caller aligns it', where=where, facts=facts)
-        if is_lax:
-            locs, ngp, nsse, membytes = lax
     pro = [e for e in s.events if e[0] == 'body-starts']
     if len(pro) != 1:
         rep.undecided('R06.7', key, 'function body marker not found'); return
@@ -350,6 +330,8 @@ RET_GP = ['rax', 'rdx']
 
 def ret_locs(t):
     """psABI return location of each eightbyte of type t: [('gp', i)|('sse', i)] or 'MEMORY'"""
+    if t in STRUCTS and size_of(t) == 16 and [m for m, o in STRUCTS[t][2]] == ['ldouble']:
+        return 'X87'            # one long double: classes X87, X87UP -> returned in %st(0) (psABI 3.2.3 return rule 6)
     c = classify(t)
     if c == ['MEMORY']:
         return 'MEMORY'
@@ -384,7 +366,14 @@ def r_returns(cg, B, rep):
             bs = bytes_of(val, max(1, w // 8))
             for j, b in enumerate(bs):
                 mem[addr[2] + j] = b
-        if locs == 'MEMORY':
+        if locs == 'X87':
+            got = [mem.get(-64 + j) for j in range(10)]
+            want = [('byte', ('retst', 1), j) for j in range(10)]
+            rep.ob('R06.5', key + ':caller-value-from-st0', got == want and not s.st, 'an aggregate that is one long double comes back in %%st(0) (class X87); the caller fills the result object from %r and leaves %d value(s) on the x87 stack' % (got[:2], len(s.st)), where=where, facts=facts)
+            out = sorted(o for o in mem if not (-64 <= o < -64 + sz))
+            rep.ob('R06.5', key + ':caller-writes-only-the-result-object', not out, 'receiving a returned %s the caller also writes bytes at offsets %r of its frame' % (t, out[:6]), where=where, facts=facts)
+            rep.ob('R06.5', key + ':caller-result-address', s.reg['rax'] == ('addrof', 64, ('addr', ('init', 'rbp'), -64)), 'the value of the call expression is %r, expected the address of the result object' % (s.reg['rax'],), where=where, facts=facts)
+        elif locs == 'MEMORY':
             ok = s.reg['rax'] == ('ret', 'rax', 1) and not mem
             rep.ob('R06.5', key + ':caller-uses-returned-address', ok, 'for a MEMORY-class return the caller must use the address the callee returns in %%rax and not copy anything itself; result %r, %d bytes stored' % (s.reg['rax'], len(mem)), where=where, facts=facts)
         else:
@@ -433,7 +422,10 @@ def r_returns(cg, B, rep):
         s2 = finals[0]
         facts = {'trace': tr.text()}
         src = ('addr', ('r', 'val', 64), 0)
-        if locs == 'MEMORY':
+        if locs == 'X87':
+            ok = s2.st == [('fmem', 80, src)] and not s2.stores
+            rep.ob('R06.5', keyc + ':callee-value-in-st0', ok, 'returning an aggregate that is one long double, the x87 stack holds %r at the epilogue; psABI: the value in %%st(0)' % (s2.st,), where=where, facts=facts)
+        elif locs == 'MEMORY':
             dst = ('mem', 64, ('addr', ('init', 'rbp'), -8))
             want = sorted(((('addr', dst, i), 8, ('mem', 8, shift_addr(src, i))) for i in range(sz)), key=repr)
             got = sorted(((a, w, v) for a, w, v, k in s2.stores), key=repr)
